@@ -39,3 +39,7 @@ claim("C41",
       "The real HostKeys.load/lookup/check/save/keys run on a symbolic known_hosts file (<=2 lines quick / <=3 thorough, 1..2 names per line, each name a solver-chosen letter in plain or hashed form, 2 key types x 2 key values, all solver variables): z3 proves lookup has a key of a type iff some line lists the name with that type, the first such line wins, check() is true exactly for that key, save+reload gives identical lookups, and a second load of the same file changes neither lookups, the key list nor the number of saved lines.",
       "Trusted: z3; line text <-> entry conversion (regex split, base64, PKey.from_type_string) is replaced by a token table in symbolic runs and exercised for real only in counterexample replays; hashed names are modelled as an injective function of the name. Outside: comments/invalid lines, delete sequences, more than 3 lines.",
       design="7 (C41)")
+claim("C40",
+      "The real SSHConfig.parse runs on a symbolic line list (<=2 blocks quick / <=3 thorough of kind Host / Match all / Match [!]originalhost, patterns of 1..2 symbolic characters over {a,b,*,?,!}, 1..2 patterns per Host line, options present or absent, a repeated key) and the real lookup on a symbolic host name (<=2 chars); z3 proves User equals the value of the first block whose pattern list applies (independent glob/negation oracle term), HostName defaults to the looked-up name, IdentityFile accumulates in order without duplicates over every applicability vector, the documented tokens of HostName/IdentityFile/ProxyCommand/ControlPath expand (ProxyCommand none -> None), and get_hostnames reports every Host pattern also with Match blocks.",
+      "Trusted: z3; regex line splitting and shlex are modelled (real text goes through from_text only in replays); fnmatch replaced by a glob model validated against the real fnmatch at start-up; environment lookups (user, home, local host name) fixed. Outside: Match host/user/exec/canonical/final, canonicalisation, %C and %l tokens, quoted values, longer names and patterns.",
+      design="7 (C40)")
